@@ -2510,7 +2510,9 @@ def default_save_handler(
   else:
     raise ValueError(f'Unsupported `file_format`: {file_format!r}.')
 
-  pg_io.mkdirs(os.path.dirname(path), exist_ok=True)
+  parent_dir = os.path.dirname(path)
+  if parent_dir:   # A bare file name (`pg.save(v, 'v.json')`) has no directory to make.
+    pg_io.mkdirs(parent_dir, exist_ok=True)
   pg_io.writefile(path, content)
 
 
